@@ -79,13 +79,31 @@ def rule_sticky_flag(col, facts):
     # is the accumulation bounded by the step counter (`*step == 0` sets `*overflowed`)?  Then exactly
     # u64_step(radix) digits are accumulated, which always fit: the checked operations cannot fail and the
     # None arm is dead (UNIT-step decides the bound itself).
-    step_arg = [l for l, nm in f.names.items() if nm == "step" and l <= f.argc]
+    # parameters by position (iter, mantissa, step, overflowed, zero) and type, not by name
+    def _mentions_arg(x, idx):
+        if isinstance(x, tuple):
+            if x and x[0] == "arg" and x[1] == idx:
+                return True
+            return any(_mentions_arg(y, idx) for y in x)
+        return False
+    locs = f.mir.get("locals", [])
+    usize_ptr = [l for l in range(1, f.argc + 1) if l < len(locs) and "usize" in locs[l]]
+    bool_ptr = [l for l in range(1, f.argc + 1) if l < len(locs) and "bool" in locs[l]]
+    step_arg = usize_ptr[:1]
+    overflowed_arg = bool_ptr[0] if len(bool_ptr) == 2 else None
+    if len(bool_ptr) == 2:
+        zero_arg = bool_ptr[1]
+        writes = set()
+        for i, b in enumerate(f.blocks):
+            for st in b["s"]:
+                if st[0] == "=" and st[1][0] == zero_arg and st[1][1] == ["*"]:
+                    writes.add(i)
     bounded = False
     for i, b in enumerate(f.blocks):
         t = b["t"]
         if t["k"] == "switch" and f.live(i) and step_arg:
             e = strip_casts(op_expr(f, t["d"]))
-            if e[0] == "bin" and e[1] == "Eq" and strip_casts(e[3]) == ("k", 0) and "step" in show(e[2]):
+            if e[0] == "bin" and e[1] == "Eq" and strip_casts(e[3]) == ("k", 0) and _mentions_arg(e[2], step_arg[0]):
                 bounded = True
     found = skipped = False
     for i, b in enumerate(f.blocks):
@@ -96,7 +114,7 @@ def rule_sticky_flag(col, facts):
         # (1) the digit is skipped because the mantissa is already full: the edge of the `overflowed` test that
         #     does not lead to the checked multiplication
         mul_blocks = [bb for bb, c, a, d, tt in f.calls() if callee_name(c).endswith("::checked_mul")]
-        if "overflowed" in show(e) and e[0] != "discr" and mul_blocks and not any(f.dominates(m, i) for m in mul_blocks):
+        if overflowed_arg is not None and _mentions_arg(e, overflowed_arg) and e[0] != "discr" and mul_blocks and not any(f.dominates(m, i) for m in mul_blocks):
             tgts = [tg for _v, tg in t["v"]] + [t["else"]]
             acc = [tg for tg in tgts if any(f.dominates(tg, m) for m in mul_blocks)]
             skip = [tg for tg in tgts if tg not in acc]
@@ -2957,9 +2975,12 @@ def rule_lossy_only_removes_work(col, facts):
         f = facts.fn(PF + nm, required=False)
         if f is None:
             continue
-        la = [l for l, name in f.names.items() if name == "lossy" and l <= f.argc]
+        # the flag is the one `bool` parameter of these functions, whatever it is called
+        la = [l for l in range(1, f.argc + 1) if l < len(f.mir.get("locals", [])) and f.mir["locals"][l] == "bool"]
         if len(la) != 1:
-            col.bad(R, "%s:lossy-parameter" % nm, "no `lossy` parameter found", f.loc())
+            la = [l for l, name in f.names.items() if name == "lossy" and l <= f.argc]
+        if len(la) != 1:
+            col.bad(R, "%s:lossy-parameter" % nm, "no unique bool (`lossy`) parameter found", f.loc())
             continue
         n += 1
         bad_true = []
